@@ -167,6 +167,28 @@ Next ==
 Spec == Init /\ [][Next]_vars
 FairSpec == Spec /\ WF_vars(FSync) /\ WF_vars(FWriteEnd)
 
+
+\* ----- the converter of hot-spot specific items (design): a float64 key is FORMATTED with five decimal places and the
+\* text is parsed again, i.e. the value is rounded to the nearest decimal with five places (on the exact expansion, so
+\* a value that has no more than five places is kept as it is, whatever its magnitude).  Mutant "itemTruncates": the
+\* digits behind the fifth place are cut off.
+ConvKey(v) ==
+    IF Mutant = "itemTruncates"
+    THEN (IF v.dig = << >> \/ v.e + 5 >= Len(v.dig) THEN Dec(v.neg, v.dig, v.e)
+          ELSE IF v.e + 5 < 0 THEN DecZero ELSE Dec(v.neg, SubSeq(v.dig, 1, v.e + 5), v.e))
+    ELSE CHOOSE r \in Round5(v) : \A q \in Round5(v) : Len(q.dig) <= Len(r.dig) \/ q = r
+\* every decimal of a bounded universe is converted to a key the payload describes, the result has at most five decimal
+\* places and converting it again changes nothing
+ItemUniverse == {Dec(neg, dig, e) : neg \in BOOLEAN, dig \in UNION {[1..n -> {0, 1, 4, 5, 9}] : n \in 0..3}, e \in (0 - 7)..3}
+ConverterKeyIsDescribed ==
+    \A v \in ItemUniverse :
+        LET r == ConvKey(v) IN
+        /\ r \in Round5(v)
+        /\ Len(r.dig) - r.e <= 5
+        /\ Round5(r) = {r}
+        /\ (Len(v.dig) - v.e <= 5 => r = v)
+        /\ (r # DecZero => r.neg = v.neg)
+
 \* ----- the property on the design
 TypeOK ==
     /\ inforce \subseteq Toks
